@@ -182,12 +182,12 @@ class SparselyBin(Factory, Container):
                 self.origin,
             )
             out.entries = self.entries + other.entries
-            out.bins = self.bins.copy()
+            out.bins = {i: v.copy() for i, v in self.bins.items()}
             for i, v in other.bins.items():
                 if i in out.bins:
                     out.bins[i] = out.bins[i] + v
                 else:
-                    out.bins[i] = v
+                    out.bins[i] = v.copy()
             return out.specialize()
 
         raise ContainerException(f"cannot add {self.name} and {other.name}")
